@@ -19,13 +19,14 @@ ASSUMPTIONS = ['exactq / exact_extra (Python int arithmetic; enclosure = product
                '"few bits" is fixed a priori as: n >= 0 and the exact power has at most 700 significant bits',
                '"within one ulp" = |result - exact| <= ulp(exact) (2 ulp(exact) if the result lies in the next binade, i.e. one ulp of the result)']
 SHARD_TIMEOUT = {'quick': 300, 'thorough': 2400}
-LEVEL_TEXT = ('exploration: ~2*10^5 (quick) / ~5*10^6 (thorough) generated powers on the real code; every result decided '
+LEVEL_TEXT = ('exploration: ~2*10^5 (quick) / ~2.5*10^6 (thorough) generated powers on the real code; every result decided '
               'against the exact power or a rigorous enclosure: directed side, exactness, 1 ulp in nearest mode, correct rounding '
               'when the exact value has <= 700 bits')
 LEVEL_NOTE = 'trusted base: vf/exactq.py + vf/exact_extra.py (integer arithmetic only); inputs not generated are not covered'
 TECHNIQUE = 'runtime reference-model monitor: exact rational / interval-bracket oracle on every observed integer power'
 
-CASES = {'quick': 13000, 'thorough': 330000}
+CASES = {'quick': 13000, 'thorough': 160000}
+_BIG = 0.1              # share of precisions drawn from the 2500..3500 list (raised in the thorough tier)
 FEW_BITS = 700
 EXACT_LIMIT = 200_000
 
@@ -265,13 +266,16 @@ def run_case(mp, rec, r, i):
     j = i // (len(NCLASSES) * len(BCLASSES))
     mode = G.MODES[j % 5]
     via = VIAS[(j // 5) % len(VIAS)]
-    p = G.pick_prec(r, big=(r.random() < 0.1))
+    p = G.pick_prec(r, big=(r.random() < _BIG))
     a = gen_base(r, bcls, p)
     n = gen_n(r, ncls, max(1, a[3]))
     check(mp, rec, a, n, p, mode, via, '%s/%s' % (ncls, bcls))
 
 
 def run_shard(shard, rec):
+    global _BIG, EXACT_LIMIT
+    if shard.get('tier') == 'thorough':
+        _BIG, EXACT_LIMIT = 0.25, 1_000_000
     mp = _mp()
     r = G.rng(PROP, shard['seed'], shard['shard'])
     from vf.instrument import AnchorCount
